@@ -254,3 +254,13 @@ func init() {
 		},
 	}
 }
+
+func init() {
+	properties["C18"] = Property{
+		Level: "exploration",
+		Rule:  "one case = (logical request of a generated history over the /api/loc/* family, rendering) with renderings {query parameters with /api, without /api, with a /v1.0 prefix, form body, JSON body, /api/json envelope, /api/yaml, element of /api/sys/util/batch}, each rendering on its own fresh engine, compared (status and normalised JSON result) with service.ProcessRequest called directly; arguments include strings that need URL/JSON/YAML escaping (in values, ids and location names); plus negative cases (each required parameter missing, ill-typed parameters, unknown URI, failing operations) through every rendering that can express them; non-trivial = the rendering is not the direct call and an argument needs escaping, or the case is negative; distinct by (seed, history, request index, rendering)",
+		Floor: [2]int{300, 3000},
+		Assumptions: []string{"generated request ids and timing fields are normalised away", "`set` of /api/loc/parents is rendered in its canonical JSON-string form"},
+		Stages: []Stage{{Name: "encodings", Pkg: "./mon/c18", Procs: 2, Batches: [2]int{4, 8}, TimeoutS: [2]int{900, 3600}}},
+	}
+}
